@@ -97,6 +97,43 @@ type Round struct {
 	Direct  []COp       `json:"direct,omitempty"`  // SetMachine/DeleteMachine calls before the message
 	Captain []COp       `json:"captain,omitempty"` // ops sent as one captain message
 	Msg     interface{} `json:"msg,omitempty"`     // ordinary message (when there is no captain message)
+	// Timer: after the round's message, a request to the timers machine
+	// (itself a machine of the crew, whose state - the pending timers -
+	// is reported and stored like any other); the timers are due in an
+	// hour, none fires within a case
+	Timer *TimerOp `json:"timer,omitempty"`
+}
+
+type TimerOp struct {
+	Kind string `json:"kind"` // make, cancel
+	Id   string `json:"id"`
+}
+
+func timerMsg(op *TimerOp) interface{} {
+	if op.Kind == "cancel" {
+		return map[string]interface{}{"to": "timers", "cancelTimer": op.Id}
+	}
+	return map[string]interface{}{"to": "timers", "makeTimer": map[string]interface{}{
+		"in": "1h", "id": op.Id, "msg": map[string]interface{}{"to": "nobody", "fired": op.Id}}}
+}
+
+// pendingView: the ids of the timers a timers machine's state lists.
+func pendingView(st *core.State) string {
+	if st == nil {
+		return ""
+	}
+	js, err := json.Marshal(st.Bs["timers"])
+	if err != nil {
+		return "unserialisable"
+	}
+	var x map[string]interface{}
+	json.Unmarshal(js, &x)
+	ids := make([]string, 0, len(x))
+	for id := range x {
+		ids = append(ids, id)
+	}
+	sort.Strings(ids)
+	return strings.Join(ids, ",")
 }
 
 type CrewHistory struct {
@@ -165,6 +202,9 @@ func genCrewHistory(t *rapid.T) CrewHistory {
 					ops[j].Kind = "create"
 				}
 			}
+		}
+		if rapid.IntRange(0, 2).Draw(t, l+".timer") == 1 {
+			r.Timer = &TimerOp{Kind: rapid.SampledFrom([]string{"make", "make", "cancel"}).Draw(t, l+".tk"), Id: rapid.SampledFrom([]string{"t1", "t2", "t3"}).Draw(t, l+".tid")}
 		}
 		h.Rounds = append(h.Rounds, r)
 	}
@@ -316,7 +356,13 @@ func machineView(node string, bs map[string]interface{}, src *crew.SpecSource) s
 func liveView(c *sio.Crew) map[string]string {
 	out := map[string]string{}
 	for mid, m := range c.Machines {
-		if mid == sio.CaptainMachine || mid == sio.TimersMachine {
+		if mid == sio.TimersMachine {
+			if p := pendingView(m.State); p != "" {
+				out[mid] = "pending " + p
+			}
+			continue
+		}
+		if mid == sio.CaptainMachine {
 			continue
 		}
 		var bs map[string]interface{}
@@ -332,7 +378,13 @@ func liveView(c *sio.Crew) map[string]string {
 func (s shadowStore) view() map[string]string {
 	out := map[string]string{}
 	for mid, m := range s {
-		if mid == sio.CaptainMachine || mid == sio.TimersMachine {
+		if mid == sio.TimersMachine {
+			if p := pendingView(m.State); p != "" {
+				out[mid] = "pending " + p
+			}
+			continue
+		}
+		if mid == sio.CaptainMachine {
 			continue
 		}
 		var bs map[string]interface{}
@@ -382,7 +434,23 @@ func runRound(ctx context.Context, c *sio.Crew, r Round) (*sio.Result, error) {
 	if msg == nil {
 		msg = map[string]interface{}{"to": "nobody"}
 	}
-	return c.ProcessMsg(ctx, msg)
+	res, err := c.ProcessMsg(ctx, msg)
+	if err != nil || r.Timer == nil {
+		return res, err
+	}
+	res2, err := c.ProcessMsg(ctx, timerMsg(r.Timer))
+	if err != nil {
+		return nil, err
+	}
+	// one result for the round: later reports replace earlier ones
+	if res.Changed == nil {
+		res.Changed = map[string]*sio.Changed{}
+	}
+	for mid, ch := range res2.Changed {
+		res.Changed[mid] = ch
+	}
+	res.Emitted = append(res.Emitted, res2.Emitted...)
+	return res, nil
 }
 
 func checkCrewHistory(h CrewHistory) (v ev.Verdict) {
